@@ -53,7 +53,7 @@ class People(sc.prettyobj):
         self.uid.grow(new_vals=uids)
         self.slot.grow(new_vals=uids)
         self.parent.grow(new_uids=uids, new_vals=np.full(len(uids), self.parent.nan))
-        for state in [self.uid, self.slot]:
+        for state in [self.uid, self.slot, self.parent]:
             state.people = self # Manually link to people since we don't want to link to states
 
         # Handle additional states
